@@ -22,7 +22,11 @@ SUBJECTS = sorted(set([''.join(t) for n in range(0, 3) for t in itertools.produc
                       ['aab', 'abb', 'ab5', 'aa5b', '٣', 'é', '^', '$', 'a\nb', ']', '[', '.', ' ', 'aaa', 'bab', 'a.', '55', 'a-c', '_', '+', '\xa0', 'a_']))
 FLAVOURS = [('xsd', '1.0'), ('xsd', '1.1'), ('xpath2', '1.0'), ('xpath3', '1.1')]
 CORPUS = ['a', 'a+', 'a*b', '(a|b)+5', 'a.b', '^a', 'b$', '^a.b$', '[a-c]+', '[^a]', '\\d+', '\\w+', '\\s', '(a)(b)?', '(a+)\\1', 'a|ab', 'a+?', 'a*?b', '(?:ab)+', 'a b', 'A', '[A-C]', 'ab|b5',
-          '.', '.+', '^', '$', '^$', '\\p{Lu}', 'a{2}', '(a|ab)(c|bcd)?', '-', 'a\\.b', '\\n', '.*b', '((b)|(a))', '(a(b)?)+', '<', '&']
+          '.', '.+', '^', '$', '^$', '\\p{Lu}', 'a{2}', '(a|ab)(c|bcd)?', '-', 'a\\.b', '\\n', '.*b', '((b)|(a))', '(a(b)?)+', '<', '&',
+          # category and class escapes whose meaning must not change under the i flag; complemented ones
+          '\\P{Lu}', '\\P{Ll}+', '\\p{Ll}', '\\P{L}', '^\\P{Lu}+$', '\\D', '\\S+', '[\\p{Lu}]', '[\\P{Lu}5]', 'a\\P{Lu}']
+QUANT_BOUNDS = ['{2,10}', '{10,9}', '{9,10}', '{10}', '{0,12}', '{100,20}', '{11,}', '{2,3}', '{3,2}', '{8,64}', '{99,100}', '{10,10}', '{1,1}', '{0,0}', '{12,2}', '{02,10}', '{2,010}']
+FLAG_FUNCTION_CORPUS = ['a.b', '^a', 'b$', '^a.b$', '.', '.+', 'A', '[A-C]', '\\p{Lu}', '\\P{Lu}', 'a b', 'ab', '^.$', '[a-c]+', '\\P{Ll}+']
 FLAGSETS = ['', 's', 'm', 'i', 'x', 'q', 'sm', 'mi', 'si', 'smi', 'ix', 'sx']
 
 
@@ -41,6 +45,9 @@ def plan(tier, seed):
         units.append({'kind': 'backrefs', 'flavour': fl})
         units.append({'kind': 'flags', 'flavour': fl})
         units.append({'kind': 'functions', 'flavour': fl})
+        units.append({'kind': 'functions-flags', 'flavour': fl})
+    for fl, ver in FLAVOURS:
+        units.append({'kind': 'quantifier-bounds', 'flavour': fl, 'ver': ver})
     return {
         'units': units,
         'bounds': {'pattern_tokens': len(TOKENS), 'pattern_length': L, 'reduced_tokens': len(REDUCED), 'reduced_pattern_length': L + 1, 'class_tokens': len(CLASS_TOKENS), 'class_length': CL, 'subjects': len(SUBJECTS),
@@ -390,6 +397,92 @@ def run_functions(unit, tier, acc):
     acc.sample({'flavour': fl, 'expression': 'tokenize("banana", "a")', 'expected': ['b', 'n', 'n', '']})
 
 
+def run_quantifier_bounds(unit, tier, acc):
+    """{n}, {n,}, {n,m} with one- and two-digit bounds (also leading zeros, min > max) after several atoms"""
+    fl, ver = unit['flavour'], unit['ver']
+    subjects = ['a' * n for n in range(0, 14)] + ['a' * 20, 'a' * 64, 'a' * 65, 'a' * 99, 'a' * 100, 'a' * 101, 'ab' * 10, 'b']
+    for q in QUANT_BOUNDS:
+        for atom in ('a', '(a)', '[a]', '(?:ab)', '\\w'):
+            for lazy in ('', '?'):
+                if atom == '(?:ab)' and fl in ('xsd', 'xpath2'):
+                    continue
+                pat = atom + q + lazy
+                check_pattern(fl, ver, pat if fl == 'xsd' else '^' + pat + '$', subjects, acc, 'quantifier-bounds')
+    acc.sample({'flavour': fl, 'pattern': 'a{2,10}', 'subjects': 'a x 0..14, 20, 64, 65, 99, 100, 101'}, limit=1)
+
+
+def run_functions_flags(unit, tier, acc):
+    """replace / tokenize / analyze-string WITH a flags argument agree with the reference match spans under the same flags"""
+    from elementpath import XPathContext, ElementPathError
+    fl = unit['flavour']
+    ver = '1.0' if fl == 'xpath2' else '1.1'
+    S = setup(fl, ver)
+    p = S['p']
+
+    def ev(src, **v):
+        try:
+            tok = S['tok'].get(src)
+            if tok is None:
+                tok = S['tok'][src] = p.parse(src)
+            return ('val', tok.evaluate(XPathContext(root=None, item=1, variables=v)))
+        except ElementPathError as e:
+            return ('err', (e.code or '').split(':')[-1])
+        except Exception as e:  # noqa
+            return ('escape', type(e).__name__ + ': ' + str(e)[:60])
+    subjects = ['', 'a', 'ab', 'a\nb', 'A\nB', 'aB', 'AB', 'abc', 'ABC', 'a b', 'b\na', 'a\n', '\na\n', 'xaxb', 'aXb', 'a\r\nb', 'Hello World', 'b\nab\n']
+    for pat in FLAG_FUNCTION_CORPUS:
+        for flags in ('s', 'm', 'i', 'sm', 'x', 'mi', 'si'):
+            ref = ref_compile(fl, pat, flags)
+            if ref[0] != 'ok':
+                continue
+            tree = ref[1]
+            try:
+                if X.fullmatch(tree, '', flags):
+                    continue
+            except (X.Unjudged, RecursionError):
+                continue
+            for s in subjects:
+                try:
+                    spans = X.find_all(tree, s, flags)
+                except (X.Unjudged, RecursionError):
+                    continue
+                acc.case(bool(spans))
+                case = {'kind': 'functions-flags', 'flavour': fl, 'pattern': pat, 'subject': s, 'flags': flags}
+                want_rep, parts, pos = '', [], 0
+                for (b, e) in spans:
+                    want_rep += s[pos:b] + '<' + s[b:e] + '>'
+                    parts.append(s[pos:b])
+                    pos = e
+                want_rep += s[pos:]
+                parts.append(s[pos:])
+                want_tok = parts if s != '' else []
+                r_m = ev('matches($s, $p, $f)', s=s, p=pat, f=flags)
+                r_rep = ev('replace($s, $p, "<$0>", $f)', s=s, p=pat, f=flags)
+                r_tok = ev('tokenize($s, $p, $f)', s=s, p=pat, f=flags)
+                acc.ev(3)
+                acc.cmp()
+                if r_m != ('val', bool(spans)):
+                    acc.violation('C12|functions-with-flags|%s|matches|flags:%s' % (fl, flags), 'matches(%r, %r, %r)' % (s, pat, flags), {'expected': bool(spans), 'observed': repr(r_m)[:80]}, case)
+                    continue
+                if r_rep != ('val', want_rep):
+                    acc.violation('C12|functions-with-flags|%s|replace|flags:%s' % (fl, flags), 'replace(%r, %r, "<$0>", %r)' % (s, pat, flags), {'expected': want_rep, 'observed': repr(r_rep)[:100]}, case)
+                got_tok = r_tok[1] if r_tok[0] == 'val' else r_tok
+                if isinstance(got_tok, str):
+                    got_tok = [got_tok]
+                if got_tok != want_tok:
+                    acc.violation('C12|functions-with-flags|%s|tokenize|flags:%s' % (fl, flags), 'tokenize(%r, %r, %r)' % (s, pat, flags), {'expected': want_tok, 'observed': repr(got_tok)[:100]}, case)
+                if fl == 'xpath3':
+                    r_an = ev('let $r := analyze-string($s, $p, $f) return (string($r), string-join($r/*[local-name() = "non-match"]/string(), "|"), '
+                              'string-join($r/*[local-name() = "match"]/string(), "|"))', s=s, p=pat, f=flags)
+                    acc.ev()
+                    acc.cmp()
+                    want_an = [s, '|'.join(x for x in parts if x != ''), '|'.join(s[b:e] for b, e in spans)]
+                    if r_an[0] != 'val' or list(r_an[1]) != want_an:
+                        acc.violation('C12|functions-with-flags|%s|analyze-string|flags:%s' % (fl, flags), 'analyze-string(%r, %r, %r)' % (s, pat, flags),
+                                      {'expected': want_an, 'observed': repr(r_an)[:140]}, case)
+    acc.sample({'flavour': fl, 'expression': "analyze-string('a\nb', 'a.b', 's')", 'expected_match': 'a\nb'})
+
+
 def run_backrefs(unit, tier, acc):
     """n capturing groups (n = 1..12, also nested) followed by every one- and two-digit back-reference"""
     fl = unit['flavour']
@@ -417,14 +510,20 @@ def run_unit(unit, tier, acc):
         run_flags(unit, tier, acc)
     elif k == 'backrefs':
         run_backrefs(unit, tier, acc)
+    elif k == 'quantifier-bounds':
+        run_quantifier_bounds(unit, tier, acc)
+    elif k == 'functions-flags':
+        run_functions_flags(unit, tier, acc)
     else:
         run_functions(unit, tier, acc)
 
 
 def replay(case, acc):
     if case['kind'] == 'pattern':
-        check_pattern(case['flavour'], case['ver'], case['pattern'], SUBJECTS + UNIVERSE + ['A', 'Ab', 'aB', 'a b', 'AB5', 'b\na', 'a\n', '\na\n'], acc, 'replay', flags=case.get('flags', ''))
+        check_pattern(case['flavour'], case['ver'], case['pattern'], SUBJECTS + UNIVERSE + ['A', 'Ab', 'aB', 'a b', 'AB5', 'b\na', 'a\n', '\na\n'] + ([case['subject']] if 'subject' in case else []) + ['a' * n for n in (9, 10, 11, 12, 20, 64, 65, 99, 100, 101)], acc, 'replay', flags=case.get('flags', ''))
     elif case['kind'] == 'flags':
         run_flags({'flavour': case['flavour']}, 'quick', acc)
+    elif case['kind'] == 'functions-flags':
+        run_functions_flags({'flavour': case['flavour']}, 'quick', acc)
     else:
         run_functions({'flavour': case['flavour']}, 'quick', acc)
